@@ -1,6 +1,6 @@
 """Budgets: (number of runs, wall-clock cap in seconds) per property and tier."""
 QUICK = {'default': (640, 300), 'C14': (1600, 400)}
-THOROUGH = {'default': (24000, 2700)}
+THOROUGH = {'default': (12000, 1800)}
 
 
 def budget(prop, tier):
